@@ -238,6 +238,27 @@ func init() {
 		m.invokeMethod(c, a[0], "Write", bytesOf("<error text>\n"))
 		return nil
 	}
+	natives["(*net/http.Request).MultipartReader"] = func(m *Machine, c *frame, fn *ssa.Function, a []Value) Value {
+		p := m.deref(c, a[0])
+		st := (*p).(Struct)
+		hdr, _ := st[fieldIndex(m.eng.nativeType("net/http.Request"), "Header")].(*Map)
+		ct := ""
+		if e := m.mapFind(hdr, sym.Str("Content-Type")); e != nil {
+			if vs := e.val.([]Value); len(vs) > 0 {
+				t := m.term(vs[0])
+				if !t.Const {
+					m.unsupported("symbolic Content-Type")
+				}
+				ct = t.S
+			}
+		}
+		if len(ct) >= 10 && ct[:10] == "multipart/" {
+			r := new(Value)
+			*r = zero(m.eng.nativeType("mime/multipart.Reader"))
+			return Tuple{r, Iface{}}
+		}
+		return Tuple{(*Value)(nil), m.newErrorString(sym.Str("request Content-Type isn't multipart/form-data"))}
+	}
 	natives["encoding/json.NewEncoder"] = func(m *Machine, c *frame, fn *ssa.Function, a []Value) Value {
 		p := new(Value)
 		*p = zero(m.eng.nativeType("encoding/json.Encoder"))
